@@ -26,6 +26,31 @@ def resolve_roots(F, names):
     return out
 
 
+def check_requires(F, cg, req):
+    """re-checkable clauses attached to audited entries"""
+    kind = req.get("kind")
+    if kind == "only_called_from":
+        # every direct/CHA/fn-ref caller of `fn` anywhere in the workspace is one of `callers` (name prefixes)
+        targets = [f for f in F.fns.values() if strip_generics(f.name) == req["fn"] or (req.get("trait_method") and f.impl and f.impl.get("trait") == req["trait_method"][0] and f.name.endswith("::" + req["trait_method"][1]))]
+        if not targets:
+            return False, "function %s not found" % req["fn"]
+        tids = {t.id for t in targets}
+        bad = set()
+        for src, dsts in cg.edges.items():
+            if src in tids:
+                continue
+            if dsts & tids:
+                nm = strip_generics(F.fns[src].name)
+                if F.fns[src].crate.endswith(".bin") and req.get("ignore_bins"):
+                    continue
+                if not any(nm == c or nm.startswith(c) for c in req["callers"]):
+                    bad.add(nm)
+        if bad:
+            return False, "%s is also called from %s" % (req["fn"], sorted(bad)[:3])
+        return True, "only called from %s" % req["callers"]
+    return True, None
+
+
 def run_pps(F, R, rule, entry_names, kinds, cha_crates, registry_names=None, armed=None, crate_scope=None, fn_filter=None,
             floor_fns=1, floor_sites=1, what="", extra_roots=()):
     """armed(fn, site) -> bool: is this (kind, module) triple armed?  Unarmed
@@ -66,6 +91,16 @@ def run_pps(F, R, rule, entry_names, kinds, cha_crates, registry_names=None, arm
                 continue
             if inst in audited and (not audited[inst].get("props") or R.pid in audited[inst]["props"]):
                 used.add(inst)
+                req = audited[inst].get("requires")
+                if req:
+                    okk, why = check_requires(F, cg, req)
+                    if not okk:
+                        hist["requires-failed"] += 1
+                        R.violation(rule, inst, "the audited invariant for this site no longer holds: %s (site: %s `%s`)" % (why, fn.name, s.snip[:70]), s.loc)
+                        continue
+                    R.ok(rule, inst, "audited: %s [re-checked: %s]" % (audited[inst]["why"], why), s.loc, how="audited+requires")
+                    hist["audited+requires"] += 1
+                    continue
                 R.ok(rule, inst, "audited: " + audited[inst]["why"], s.loc, how="audited")
                 hist["audited"] += 1
                 continue
